@@ -12,7 +12,7 @@ import random
 ID = "C14"
 LEVEL = "exploration"
 TECHNIQUE = "shadow-registry oracle after every operation + icontract class invariant on Model"
-RULE = ("alphabet {create a, create b, create_agents(a,2), delete oldest, delete newest, delete two ids, delete unknown id, "
+RULE = ("alphabet {create a, create b, create p (an agent whose initialize() creates a companion agent), create_agents(a,2), delete oldest, delete newest, delete two ids, delete unknown id, "
         "configure_agents, reset, flip state}: ALL sequences of length<=4 (quick) / <=5 (thorough), plus seeded random sequences "
         "of length 10-40; after every operation agent(id) for every id ever issued, agent_ids/agent_count per type, "
         "agent_count_per_state and next_agent per (type,state), random_agents. distinct_nontrivial = distinct operation "
@@ -21,7 +21,8 @@ ASSUMPTIONS = ["agent_ids order is not judged (compared as multisets)", "models 
 REQUIRED = {"queries": 10000, "invariant_evaluations": 1000}
 BUDGET_S = {"quick": 100, "thorough": 1200}
 
-OPS = ["create_a", "create_b", "create_a2", "del_oldest", "del_newest", "del_two", "del_unknown", "configure", "reset", "flip"]
+OPS = ["create_a", "create_b", "create_a2", "del_oldest", "del_newest", "del_two", "del_unknown", "configure", "reset", "flip", "create_p"]
+TYPES = ("a", "b", "p")
 STATES = ["active", "idle"]
 
 
@@ -89,6 +90,12 @@ def new_model():
     m = _state["Model"](1, 5, 1, name="reg", scheduler=SimultaneousScheduler(), data_collector=DataCollector())
     m.register_agent_factory("a", lambda i, mod, p: Agent(i, mod, p, "a"))
     m.register_agent_factory("b", lambda i, mod, p: Agent(i, mod, p, "b"))
+
+    class Parent(Agent):
+        # an agent that brings a companion along: its initialize() hook creates another agent (re-entrant create_agent)
+        def initialize(self):
+            self.model.create_agent("b", None)
+    m.register_agent_factory("p", lambda i, mod, p: Parent(i, mod, p, "p"))
     return m
 
 
@@ -121,6 +128,15 @@ def apply(m, sh, op, counters):
             if ag.id in sh.issued:
                 return dict(kind="id-reused", id=ag.id)
             sh.created(ag, "a")
+    elif name == "create_p":
+        ag = m.create_agent("p", None)
+        new = [a for a in m.agents if a.id not in before]
+        if sorted(a.agent_type for a in new) != ["b", "p"] or len(set(a.id for a in new)) != 2 or ag.agent_type != "p":
+            return dict(kind="nested-create", new=[(a.id, a.agent_type) for a in new], returned=(ag.id, ag.agent_type))
+        for a2 in sorted(new, key=lambda a: a.id):
+            if a2.id in sh.issued:
+                return dict(kind="id-reused", id=a2.id)
+            sh.created(a2, a2.agent_type)
     elif name == "del_oldest":
         if sh.live:
             i = next(iter(sh.live))
@@ -174,7 +190,7 @@ def audit(m, sh, counters):
                     return dict(kind="agent(id)", id=i, got=None if ag is None else [ag.id, ag.agent_type], expected=sh.live[i])
             elif ag is not None:
                 return dict(kind="agent(id)-dead", id=i, got=ag.id)
-        for t in ("a", "b"):
+        for t in TYPES:
             exp_ids = sorted(i for i, (tt, s) in sh.live.items() if tt == t)
             q += 2
             got = sorted(m.agent_ids(t))
